@@ -70,6 +70,8 @@ type Exec struct {
 	opaquePtr map[*Cell]*Term
 	guardOrd map[ssa.Instruction]string
 	lemmas []*LemmaInst
+	covers int
+	loopHeapNames map[*ssa.BasicBlock]map[string]bool
 	fresh map[string]bool
 }
 
@@ -135,7 +137,22 @@ func (x *Exec) define(st *State, base string, t *Term) *Term {
 	}
 	name := x.prog.freshName(base)
 	st.addLine(Line{Kind: LDefine, Name: name, Sort: t.Sort, T: t})
+	termDefs[name] = t
 	return Const(name, t.Sort)
+}
+
+// termDefs: definitions of named intermediate terms (names are globally unique), used by the peephole simplifier.
+var termDefs = map[string]*Term{}
+
+func resolve(t *Term) *Term {
+	for t != nil && t.Kind == KApp && len(t.Args) == 0 && t.Sym {
+		d, ok := termDefs[t.Op]
+		if !ok {
+			break
+		}
+		t = d
+	}
+	return t
 }
 
 func (x *Exec) freshValue(st *State, base string, t types.Type) Value {
@@ -232,14 +249,14 @@ func (x *Exec) toTerm(st *State, v Value, typ types.Type) *Term {
 // slices
 
 func (x *Exec) sliceLen(s *Term) *Term {
-	if s.Kind == KApp && s.Op == "mk$"+string(s.Sort) {
-		return s.Args[1]
+	if r := resolve(s); r.Kind == KApp && r.Op == "mk$"+string(s.Sort) {
+		return r.Args[1]
 	}
 	return App(string(s.Sort)+"$len", SInt, s)
 }
 func (x *Exec) sliceArr(s *Term) *Term {
-	if s.Kind == KApp && s.Op == "mk$"+string(s.Sort) {
-		return s.Args[0]
+	if r := resolve(s); r.Kind == KApp && r.Op == "mk$"+string(s.Sort) {
+		return r.Args[0]
 	}
 	d := x.prog.U.Datatypes[s.Sort]
 	return App(string(s.Sort)+"$arr", d.Fields[0].Sort, s)
@@ -250,32 +267,35 @@ func (x *Exec) mkSlice(s Sort, arr, ln *Term) *Term {
 
 func selectS(a, i *Term) *Term {
 	// select over store chains with literal indices
+	orig := a
+	a = resolve(a)
 	for a.Kind == KApp && a.Op == "store" {
 		j := a.Args[1]
 		if i.Kind == KIntLit && j.Kind == KIntLit {
 			if i.Int == j.Int {
 				return a.Args[2]
 			}
-			a = a.Args[0]
+			a = resolve(a.Args[0])
 			continue
 		}
-		if i == j {
+		if i == j || (i.Kind == KApp && j.Kind == KApp && len(i.Args) == 0 && len(j.Args) == 0 && i.Op == j.Op) {
 			return a.Args[2]
 		}
 		break
 	}
-	if a.Kind == KApp && strings.HasPrefix(a.Op, "(as const") {
+	if a.Kind == KApp && strings.HasPrefix(a.Op, "(as const") && i.Kind == KIntLit {
 		return a.Args[0]
 	}
-	return Select(a, i)
+	_ = orig
+	return Select(orig, i)
 }
 
 // field selection with constructor folding
 func (x *Exec) selField(v *Term, idx int) *Term {
 	sel, fs := x.prog.fieldSel(v.Sort, idx)
 	d := x.prog.U.Datatypes[v.Sort]
-	if v.Kind == KApp && v.Op == d.Ctor {
-		return v.Args[idx]
+	if r := resolve(v); r.Kind == KApp && r.Op == d.Ctor {
+		return r.Args[idx]
 	}
 	return App(sel, fs, v)
 }
@@ -294,14 +314,14 @@ func (x *Exec) updField(v *Term, idx int, nv *Term) *Term {
 }
 
 func itag(v *Term) *Term {
-	if v.Kind == KApp && v.Op == "mkIface" {
-		return v.Args[0]
+	if r := resolve(v); r.Kind == KApp && r.Op == "mkIface" {
+		return r.Args[0]
 	}
 	return App("itag", SInt, v)
 }
 func ival(v *Term) *Term {
-	if v.Kind == KApp && v.Op == "mkIface" {
-		return v.Args[1]
+	if r := resolve(v); r.Kind == KApp && r.Op == "mkIface" {
+		return r.Args[1]
 	}
 	return App("ival", SInt, v)
 }
@@ -923,12 +943,19 @@ func (x *Exec) atLoopHeader(st *State, h *ssa.BasicBlock, ord int) bool {
 	}
 	if st.inLoop[h] {
 		check("inv_step")
+		// the function's frame is an implicit invariant of every loop
+		for _, g := range x.frameGoals(st, x.loopHeapNames[h]) {
+			x.oblige(st, "inv_step", fmt.Sprintf("loop%d.frame.%s", ord, g.name), g.goal, "loop preserves the function's modifies clause")
+		}
 		return true
 	}
 	check("inv_entry")
 	// havoc everything the loop may modify
 	x.havocLoop(st, h)
 	st.inLoop[h] = true
+	for _, g := range x.frameGoals(st, x.loopHeapNames[h]) {
+		st.assume(g.goal, "frame invariant of loop "+fmt.Sprint(ord)+" for "+g.name)
+	}
 	x.rangeIndexFacts(st, h)
 	if lc != nil {
 		ctx := x.ctxFor(st, x.entry, nil)
@@ -1017,6 +1044,19 @@ func (x *Exec) havocLoop(st *State, h *ssa.BasicBlock) {
 		}
 		st.cells[c] = x.freshValue(st, "loop."+c.Name, c.Typ)
 	}
+	if x.loopHeapNames == nil {
+		x.loopHeapNames = map[*ssa.BasicBlock]map[string]bool{}
+	}
+	hn := map[string]bool{}
+	if frame.All {
+		for n := range heapSorts {
+			hn[n] = true
+		}
+	}
+	for n := range frame.Names {
+		hn[n] = true
+	}
+	x.loopHeapNames[h] = hn
 	x.applyFrame(st, frame)
 	for r := range rangeIters {
 		if it, ok := st.regs[r].(*RangeIter); ok {
@@ -1034,7 +1074,7 @@ func (x *Exec) havocLoop(st *State, h *ssa.BasicBlock) {
 func (x *Exec) staticWrite(addr ssa.Value, loop map[*ssa.BasicBlock]bool, cells map[*ssa.Alloc]bool, frame *FrameSet) {
 	switch a := addr.(type) {
 	case *ssa.Alloc:
-		if a.Heap {
+		if a.Heap && !onlyIndexedAndSliced(a) {
 			x.prog.addPointeeWrites(frame, a.Type().(*types.Pointer).Elem(), -1)
 			return
 		}
@@ -1043,7 +1083,7 @@ func (x *Exec) staticWrite(addr ssa.Value, loop map[*ssa.BasicBlock]bool, cells 
 		}
 	case *ssa.FieldAddr:
 		// root?
-		if root, ok := rootAlloc(a.X); ok && !root.Heap {
+		if root, ok := rootAlloc(a.X); ok && (!root.Heap || onlyIndexedAndSliced(root)) {
 			if loop == nil || !loop[root.Block()] {
 				cells[root] = true
 			}
@@ -1052,7 +1092,7 @@ func (x *Exec) staticWrite(addr ssa.Value, loop map[*ssa.BasicBlock]bool, cells 
 		pt := a.X.Type().Underlying().(*types.Pointer).Elem()
 		x.prog.addPointeeWrites(frame, pt, a.Field)
 	case *ssa.IndexAddr:
-		if root, ok := rootAlloc(a.X); ok && !root.Heap {
+		if root, ok := rootAlloc(a.X); ok && (!root.Heap || onlyIndexedAndSliced(root)) {
 			if loop == nil || !loop[root.Block()] {
 				cells[root] = true
 			}
@@ -1103,6 +1143,19 @@ func (x *Exec) atReturn(st *State, r *ssa.Return) {
 	if x.fc == nil {
 		return
 	}
+	// vacuity guard: some return path must be feasible under the precondition (cover query, expected sat)
+	if x.covers < 6 {
+		x.covers++
+		name := x.obName("cover", "return")
+		ob := x.obs[name]
+		if ob == nil {
+			ob = &Obligation{Name: name, Fn: funcKey(x.fn), Kind: "cover", Label: "return", Clause: "some return path is feasible under the precondition (vacuity guard)"}
+			x.obs[name] = ob
+			x.obOrd = append(x.obOrd, name)
+		}
+		ob.Queries = append(ob.Queries, &Query{U: x.prog.U, Lines: st.allLines(), Goal: nil, Reveal: x.reveal(), Lemmas: x.lemmas, TimeoutMs: 1500})
+		ob.Traces = append(ob.Traces, nil)
+	}
 	res := map[string]TV{}
 	sig := x.fn.Signature
 	for i, v := range r.Results {
@@ -1123,6 +1176,10 @@ func (x *Exec) atReturn(st *State, r *ssa.Return) {
 	}
 	ctx := x.ctxFor(st, x.entry, res)
 	ctx.atReturn = true
+	ctx.shadow = map[string]bool{}
+	for k := range res {
+		ctx.shadow[k] = true
+	}
 	for _, c := range x.fc.Ensures {
 		t := x.evalBool(ctx, c)
 		x.oblige(st, "ensures", c.Label, t, c.Text)
@@ -1211,7 +1268,7 @@ func (x *Exec) execInstr(st *State, in ssa.Instruction) (forks []*State) {
 		return
 	case *ssa.Alloc:
 		elem := v.Type().(*types.Pointer).Elem()
-		if !v.Heap {
+		if !v.Heap || onlyIndexedAndSliced(v) {
 			c := x.newCell(v.Comment, elem)
 			if c.Name == "" {
 				c.Name = v.Name()
@@ -1393,6 +1450,48 @@ func (x *Exec) execInstr(st *State, in ssa.Instruction) (forks []*State) {
 		x.unsupported("instruction %T", in)
 	}
 	return nil
+}
+
+// onlyIndexedAndSliced: a `new [N]T` whose address is only used by IndexAddr and Slice (varargs, composite literals of
+// slices) never escapes as a pointer; it is treated like a local cell.
+func onlyIndexedAndSliced(a *ssa.Alloc) bool {
+	if _, ok := a.Type().(*types.Pointer).Elem().Underlying().(*types.Array); !ok {
+		return false
+	}
+	refs := a.Referrers()
+	if refs == nil {
+		return false
+	}
+	for _, r := range *refs {
+		switch u := r.(type) {
+		case *ssa.IndexAddr:
+			if u.X != a {
+				return false
+			}
+			// the element address must only be stored to / loaded from
+			if er := u.Referrers(); er != nil {
+				for _, e := range *er {
+					switch w := e.(type) {
+					case *ssa.Store:
+						if w.Addr != u {
+							return false
+						}
+					case *ssa.UnOp, *ssa.DebugRef:
+					default:
+						return false
+					}
+				}
+			}
+		case *ssa.Slice:
+			if u.X != a {
+				return false
+			}
+		case *ssa.DebugRef:
+		default:
+			return false
+		}
+	}
+	return true
 }
 
 func (x *Exec) zeroValue(t types.Type) Value {
